@@ -138,7 +138,17 @@ pub fn sigmf_archive(src: &mut Src, meta: &str, data: &[u8]) -> Vec<u8> {
     let extra = src.below(3);
     for i in 0..extra {
         let n = src.below(700);
-        members.push((format!("rec/unrelated{i}.txt"), vec![b'x'; n]));
+        // Unrelated members, some with the recording's own file name in
+        // another directory (no metadata of their own: not a second recording).
+        let name = match src.below(4) {
+            0 => "old/capture.sigmf-data".to_string(),
+            1 => "capture.sigmf-data.bak".to_string(),
+            _ => format!("rec/unrelated{i}.txt"),
+        };
+        if members.iter().any(|m| m.0 == name) {
+            continue;
+        }
+        members.push((name, vec![b'x'; n]));
     }
     // seeded order
     for i in (1..members.len()).rev() {
